@@ -82,6 +82,22 @@ def cases(ctx):
             return [v for cl in clusters for v in cl] + wide + xs            # every value occurs in both chunks
         out.append({"dt": dt, "level": rng.choice([8, 8, 6]), "order": 0, "gcds": rng.below(2),
                     "chunks": [mix(20000, 1), mix(20000 if ctx.quick else 60000, 998)], "kinds": ["inverted-mixtures"], "drain": 0})
+    # an extreme spread of range weights in one chunk: one lone smallest value next to a long run of a single value,
+    # dozens of heavily repeated values, and a bulk spread over the type's range (anything that caps, quantises or clamps
+    # Huffman weights changes the codes here; the per-chunk huffopt tie sees it)
+    for _ in range(2 if ctx.quick else 10):
+        dt = rng.choice(["u32", "i64", "u64", "i32"])
+        P, W, kind, pps = C.DTYPES[dt]
+        bulk = [G.from_signed_val(dt, (1 << 20) + rng.below((1 << (W - 2)))) for _ in range(40000)]
+        spikes = [1000 + rng.below(1000000) for _ in range(30)]
+        xs = list(bulk)
+        for v in spikes:
+            xs += [G.from_signed_val(dt, v)] * 250
+        xs += [G.from_signed_val(dt, 0)] + [G.from_signed_val(dt, 500)] * 1500
+        for a in range(len(xs) - 1, 0, -1):
+            b = rng.below(a + 1)
+            xs[a], xs[b] = xs[b], xs[a]
+        out.append({"dt": dt, "level": 12, "order": 0, "gcds": rng.below(2), "chunks": [xs], "kinds": ["weight-spread"], "drain": 0})
     for _ in range(800 if ctx.quick else 8000):
         out.append(S.enc_case(rng))
     # a nearly full-range uniform bulk plus hundreds of tight clusters at level 12: one merged range holds most numbers and
@@ -137,6 +153,22 @@ def run(ctx):
         extra = [bulk_cluster_case(ctx.rng, b, dt, m) for (b, dt, m) in
                  ((8, "u32", 256), (16, "u32", 256), (12, "i64", 512), (16, "f32", 384))]
         judge(ctx, S.run_enc(ctx, extra), worstbox)
+    if (ctx.disagreements and not ctx.violations) or not ctx.quick:
+        # ... and one chunk of millions of numbers with an extreme spread of range weights (implementation only, sizes
+        # from the harness): a dominant wide range that loses its short code costs more than W + 4 bits per number
+        big = ["bigspread u32 12 15000000 600 2100 20000 %d" % ctx.seed, "bigspread i64 12 6000000 300 2100 20000 %d" % (ctx.seed + 1)]
+        for line, a in zip(big, C.harness(big, timeout=1800, mem_kb=24 * 1024 * 1024)):
+            ctx.case(line, ["big"])
+            kv = S.parse_kv(a)
+            if not a.startswith("ok "):
+                ctx.violation("compressing a valid chunk failed", line, "ok", a[:200])
+                continue
+            W = C.DTYPES[line.split(" ")[1]][1]
+            n, body = int(kv["n"]), int(kv["body"])
+            worstbox[0] = max(worstbox[0], body * 8 / n - W)
+            if body * 8 - 7 > n * (W + 4):
+                ctx.violation("size bound exceeded: body %d bytes = %.3f bits per number > W+4=%d (n=%d, %s ranges, longest code %s bits)"
+                              % (body, body * 8 / n, W + 4, n, kv.get("nprefs"), kv.get("maxcode")), line, "body <= n(W+4) bits", a)
     ctx.extra["worst_body_bits_per_number_minus_W"] = round(worstbox[0], 3)
 
 def judge(ctx, res, worstbox):
